@@ -502,7 +502,7 @@ class ConfParser:
 
         if "frequency_conversion_factor" in arg_list:
             freq_factor = self._args.frequency_conversion_factor
-            if freq_factor:
+            if freq_factor is not None:
                 self._confs["frequency_conversion_factor"] = freq_factor
 
         if "frequency_scale_factor" in arg_list:
@@ -1667,7 +1667,7 @@ class PhonopyConfParser(ConfParser):
 
         if "thermal_displacement_matrices_cif" in arg_list:
             opt_tdm_cif = self._args.thermal_displacement_matrices_cif
-            if opt_tdm_cif:
+            if opt_tdm_cif is not None:
                 self._confs["tdispmat_cif"] = opt_tdm_cif
 
         if "projection_direction" in arg_list:
